@@ -18,6 +18,7 @@ package main
 //  which=10 requests over the plugin's own listener, plain or TLS, chunked or Content-Length (wire.go)
 //  which=11 Stop() with a request in flight on the plugin's own listener (wire.go)
 //  which=12 routed request histories with arbitrary request headers and meta template sets (headers.go)
+//  which=14 bursts of simultaneous requests on fresh plugin instances: source ids per burst (burst.go)
 //  which=13 requests with arbitrary headers / framing oddities over the own listener of a plugin with meta templates (headers.go)
 
 import (
@@ -306,6 +307,8 @@ func c11Exec(which int, cs hx.Sx) hx.Sx {
 		return c11ExecHRouted(cs)
 	case 13:
 		return c11ExecHWire(cs)
+	case 14:
+		return c11ExecBurst(cs)
 	}
 	if which == 4 {
 		return c11ExecHistory(cs)
@@ -764,10 +767,12 @@ func c11Gen(c *hmain.Ctx) {
 	// 12. request headers (Content-Type: form / multipart / ..., framing headers, Expect, Transfer-Encoding oddities) and meta
 	//     template sets as part of the case, on ServeHTTP and on the plugin's own listener (headers.go)
 	c11GenHeaders(c)
+	// 13. bursts of simultaneous first allocations of source ids on fresh instances, after a drain, mixed (burst.go)
+	c11GenBurst(c)
 }
 
 func main() {
 	hmain.Run(&hmain.Prop{ID: "C11",
-		Rule: "exhaustive: every body over {a,b,\\n,\\r} up to the tier's length x every chunking; random bodies/chunkings incl. reads > 16KiB, empty reads, read errors, gzip, source-id scripts, scripted concurrent requests, gzip request histories (good / rejected / two overlapping large requests on one plugin); reads returning data together with io.EOF / an error (exhaustive up to length 4|6 + random), newlines at the 16 KiB read-buffer boundary, phases of concurrent requests over warm pools, gzip histories with truncated / corrupted / multi-member / chunked bodies; requests parked inside a controller.In that blocks before reading its bytes (at every event of small bodies: unterminated tail / middle line, carry-over or read buffer) while other plain / gzip requests run, park too or every pooled buffer is poisoned, under GOMAXPROCS(1); routed histories: every emulate mode x auth strategy x auth header x path x method with accepted / rejected / malformed credentials, CORS pattern sets x origins, client-address precedence, meta templates; the plugin's own listener (plain / TLS, chunked / Content-Length, concurrent connections) and Stop() with a parked / aborted request in flight; request headers x meta template sets in body-judging streams: every Content-Type (form-urlencoded / multipart with and without boundary / json / ndjson / text / none / malformed) x no template / every documented template variable alone / all of them, every small body x chunking under a form Content-Type with all templates, random routed histories with random header sets, and over the own listener with Content-Length / chunked framing, Expect: 100-continue, chunk extensions, trailers, Transfer-Encoding oddities, HTTP/1.0. Non-trivial = body has a newline and >= 2 reads, or a read error / id script of >= 3 ops / concurrent case; distinct = distinct (sub-model, case) text.",
+		Rule: "exhaustive: every body over {a,b,\\n,\\r} up to the tier's length x every chunking; random bodies/chunkings incl. reads > 16KiB, empty reads, read errors, gzip, source-id scripts, scripted concurrent requests, gzip request histories (good / rejected / two overlapping large requests on one plugin); reads returning data together with io.EOF / an error (exhaustive up to length 4|6 + random), newlines at the 16 KiB read-buffer boundary, phases of concurrent requests over warm pools, gzip histories with truncated / corrupted / multi-member / chunked bodies; requests parked inside a controller.In that blocks before reading its bytes (at every event of small bodies: unterminated tail / middle line, carry-over or read buffer) while other plain / gzip requests run, park too or every pooled buffer is poisoned, under GOMAXPROCS(1); routed histories: every emulate mode x auth strategy x auth header x path x method with accepted / rejected / malformed credentials, CORS pattern sets x origins, client-address precedence, meta templates; the plugin's own listener (plain / TLS, chunked / Content-Length, concurrent connections) and Stop() with a parked / aborted request in flight; request headers x meta template sets in body-judging streams: every Content-Type (form-urlencoded / multipart with and without boundary / json / ndjson / text / none / malformed) x no template / every documented template variable alone / all of them, every small body x chunking under a form Content-Type with all templates, random routed histories with random header sets, and over the own listener with Content-Length / chunked framing, Expect: 100-continue, chunk extensions, trailers, Transfer-Encoding oddities, HTTP/1.0; bursts of 2..32 requests released at the same instant on a fresh plugin instance (each blocks in its first Read until all hold a source id), repeated on hundreds of fresh instances, again after a drain and mixed recycled / fresh: source ids pairwise different and below the high-water mark, events per source id = the lines of one body. Non-trivial = body has a newline and >= 2 reads, or a read error / id script of >= 3 ops / concurrent case; distinct = distinct (sub-model, case) text.",
 		Gen:  c11Gen, Exec: c11Exec})
 }
